@@ -24,6 +24,8 @@ type c18Case struct {
 	Kind string    `json:"kind"`           // int | int32 | int64 | float32 | float64
 	In   model.Val `json:"in"`             // int*, uint*, float*, string
 	JSON string    `json:"json,omitempty"` // if set: the number literal is sent through zjson instead
+	// InMap: the value is the entry "n" of a map[string]any parsed by a struct schema (data providers see it first)
+	InMap bool `json:"inMap,omitempty"`
 }
 
 var plainNumberRe = regexp.MustCompile(`^[+-]?[0-9]+(\.[0-9]*)?([eE][+-]?[0-9]+)?$`)
@@ -33,6 +35,8 @@ var plainNumberRe = regexp.MustCompile(`^[+-]?[0-9]+(\.[0-9]*)?([eE][+-]?[0-9]+)
 // fixed by a syntax this oracle models.
 func exactOf(v model.Val) (*big.Rat, string) {
 	switch v.T {
+	case "jsonnum":
+		return exactOf(model.Str(v.S))
 	case "int", "int8", "int16", "int32", "int64", "uint", "uint8", "uint16", "uint32", "uint64":
 		r, ok := new(big.Rat).SetString(v.S)
 		if !ok {
@@ -93,7 +97,7 @@ func propC18(c c18Case) hh.Verdict {
 	var res *model.Result
 	var destVal reflect.Value
 	env := &model.Env{}
-	if c.JSON != "" {
+	if c.JSON != "" || c.InMap {
 		root := &model.Node{Kind: model.KStruct, Fields: []model.Field{{Key: "n", Node: n}}}
 		root.Number()
 		schema, typ := model.Build(root, env)
@@ -105,7 +109,11 @@ func propC18(c c18Case) hh.Verdict {
 					res.Panic = p
 				}
 			}()
-			res.Map = schema.(*z.StructSchema).Parse(zjson.Decode(strings.NewReader(`{"n":`+c.JSON+`}`)), dest.Interface())
+			if c.InMap {
+				res.Map = schema.(*z.StructSchema).Parse(map[string]any{"n": c.In.Go()}, dest.Interface())
+			} else {
+				res.Map = schema.(*z.StructSchema).Parse(zjson.Decode(strings.NewReader(`{"n":`+c.JSON+`}`)), dest.Interface())
+			}
 		}()
 		destVal = dest.Elem().Field(0)
 	} else {
@@ -237,7 +245,7 @@ func c18Boundary() []*big.Int {
 			out = append(out, new(big.Int).Add(b, big.NewInt(d)))
 		}
 	}
-	for _, e := range []uint{7, 8, 15, 16, 24, 31, 32, 53, 63, 64} {
+	for _, e := range []uint{7, 8, 15, 16, 24, 31, 32, 53, 60, 63, 64} {
 		p := new(big.Int).Lsh(big.NewInt(1), e)
 		add(p)
 		add(new(big.Int).Neg(p))
@@ -296,6 +304,13 @@ func c18Cells(yield func(c18Case)) {
 				yield(c18Case{Kind: kind, In: model.Val{T: "uint8", S: s}})
 			}
 			yield(c18Case{Kind: kind, In: model.Str(s)})
+			yield(c18Case{Kind: kind, In: model.Str(s), InMap: true})
+			yield(c18Case{Kind: kind, In: model.Val{T: "jsonnum", S: s}})
+			yield(c18Case{Kind: kind, In: model.Val{T: "jsonnum", S: s}, InMap: true})
+			yield(c18Case{Kind: kind, In: model.Val{T: "jsonnum", S: s + ".5"}, InMap: true})
+			if fits(b, 64, true) {
+				yield(c18Case{Kind: kind, In: model.Val{T: "int64", S: s}, InMap: true})
+			}
 			f, _ := new(big.Float).SetInt(b).Float64()
 			yield(c18Case{Kind: kind, In: model.F64(f)})
 			yield(c18Case{Kind: kind, In: model.F64(f + 0.5)})
@@ -329,7 +344,7 @@ func c18Cells(yield func(c18Case)) {
 
 func TestC18(t *testing.T) {
 	h := hh.Start(t, "C18",
-		"destination in {Int, Int32, Int64, Float32, Float64} x source representation in {int, int8..int64, uint..uint64, float32, float64, decimal / exponent / hex / padded / non-finite strings, JSON number through zjson} x magnitudes: exhaustive product over boundary sets (powers of two 2^7..2^64 +-2, 1e19, 3e9, type limits, fractional neighbours, MaxFloat32/64 neighbours, subnormals, -0, NaN, +-Inf) plus uniformly random values; non-trivial = exact value within 2 units of a range limit of the destination or beyond it (floats: beyond half the format's maximum) or non-finite; distinct = FNV-1a of the case JSON",
+		"destination in {Int, Int32, Int64, Float32, Float64} x source representation in {int, int8..int64, uint..uint64, float32, float64, json.Number, each also as a map entry of a struct schema, decimal / exponent / hex / padded / non-finite strings, JSON number through zjson} x magnitudes: exhaustive product over boundary sets (powers of two 2^7..2^64 +-2, 1e19, 3e9, type limits, fractional neighbours, MaxFloat32/64 neighbours, subnormals, -0, NaN, +-Inf) plus uniformly random values; non-trivial = exact value within 2 units of a range limit of the destination or beyond it (floats: beyond half the format's maximum) or non-finite; distinct = FNV-1a of the case JSON",
 		"exact oracle (math/big): acceptable outcomes are a coerce issue, or a destination equal to the input truncated toward zero and inside the integer range, or (floats) the correctly rounded finite value; rounding to nearest when narrowing to float32 (directly or through float64) is accepted as the same number",
 		"strings whose numeric meaning is not a plain decimal/exponent literal are only required not to be accepted as an integer outside the range (skipped when accepted)")
 	defer h.Finish()
